@@ -55,7 +55,7 @@ def make_defect(kind, r):
         t = S(BODY.format(fill="#123456") * 3)
         return [("emoji_u1f601.svg", t[: len(t) // 2])], VECTOR_FORMATS + ["untouchedsvg", "cbdt"], [], "file cut in half"
     if kind == "unknown-colour":
-        return [("emoji_u1f601.svg", S(BODY.format(fill=r.choice(["notacolour", "#12", "rgb(1,2)", "hsl(10,20%,30%)x", "#12345", "#FF00007", "#1234567"]))))], VECTOR_FORMATS, [], "colour string nanoemoji cannot parse"
+        return [("emoji_u1f601.svg", S(BODY.format(fill=r.choice(["notacolour", "#12", "rgb(1,2)", "hsl(10,20%,30%)x", "#12345", "#FF00007", "#1234567", "rgb(100%, 0%, 0%)", "rgb(1,2,3x)", "rgba(1,2,3,0.5)", "rgb(1,2,3,4)", "rgb(50%,50%,50%)"]))))], VECTOR_FORMATS, [], "colour string nanoemoji cannot parse"
     if kind == "pattern-paint":
         return [("emoji_u1f601.svg", S(BODY.format(fill="url(#p)"), '<defs><pattern id="p" width="10" height="10" patternUnits="userSpaceOnUse"><rect width="5" height="5" fill="red"/></pattern></defs>'))], VECTOR_FORMATS, [], "pattern paint server"
     if kind == "missing-gradient":
